@@ -400,5 +400,6 @@ func ruleR3Prereg(c *Ctx) []Obligation {
 			}
 		}
 	}
+	out = append(out, r6sibPassOrderObligations(c)...)
 	return out
 }
